@@ -10,6 +10,7 @@ from ..domains.arrays import ArrayDomain, Vec3
 from ..domains.units import NM, PX, ONE, U, UnitsDomain, S as UNIT_S
 from ..cfg import backward_slice_names
 from ..repo import calls_in, dotted, norm_src, walk_no_nested
+from ..match import Matcher, src as msrc
 from .common import kwarg, need_funcs
 
 PC = "acryo/pipe/_classes.py::"
@@ -142,8 +143,9 @@ def composition_clause(model, rep, funcs):
         lam = [n for n in ast.walk(f.node) if isinstance(n, ast.Lambda)]
         bodies = sorted(norm_src(l.body) for l in lam)
         rep.instance("COMP", f.loc())
-        ok = bodies == ["self(other(scale), scale)", "self(other(x, scale), scale)"] and "return other.__class__(fn)" in norm_src(f.node).replace(".with_name(f'{self.__name__}○{other.__name__}')", "")
-        ok = ok or (bodies == ["self(other(scale), scale)", "self(other(x, scale), scale)"] and "other.__class__(fn)" in norm_src(f.node))
+        ok = bodies == ["self(other(scale), scale)", "self(other(x, scale), scale)"] and Matcher(f).all_of([
+            "if isinstance(other, ImageProvider):\n    $fn = lambda scale: self(other(scale), scale)\nelif isinstance(other, ImageConverter):\n"
+            "    $fn = lambda x, scale: self(other(x, scale), scale)\nelse:\n    ...", "other.__class__($fn)"])[0]
         rep.ob("COMP", f.anchor, "(a @ b)(args) == a(b(args), scale): inner pipeline first, result has the inner pipeline's kind", ok, f"{bodies}", node=f.node, fn=f,
                clause="2 composition", stmt="def compose")
         raises = any(isinstance(n, ast.Raise) for n in ast.walk(f.node))
@@ -177,7 +179,9 @@ def curry_clause(model, rep, funcs):
             continue
         lam = [n for n in ast.walk(f.node) if isinstance(n, ast.Lambda)]
         rep.instance("CURRY", f.loc())
-        ok = len(lam) == 1 and norm_src(lam[0].body) == body and f"_fn = {shim}(fn)" in norm_src(f.node)
+        pat = body.replace("_fn(", "$fn(")
+        inner = [n for n in ast.walk(f.node) if isinstance(n, ast.FunctionDef) and n is not f.node and any(isinstance(x, ast.Lambda) for x in ast.walk(n))]
+        ok = len(lam) == 1 and bool(inner) and Matcher(inner[0]).all_of([f"$fn = {shim}(fn)", pat])[0]
         rep.ob("CURRY", a, f"the curried pipeline calls the user function as {body} (scale / image supplied later, user arguments in their original order)", ok,
                norm_src(lam[0].body) if lam else "", node=f.node, fn=f, clause="3 currying", stmt=f"{f.name} lambda")
     f = funcs.get("acryo/pipe/_curry.py::_assert_2_args")
@@ -265,11 +269,21 @@ def gaussian_clause(model, rep, funcs):
     sh = Vec3(tuple(dom.sym(f"d{i}") for i in range(3)))
     seen = {}
 
+    MGa = Matcher(f)
+    role: dict = {}
+    for _, bb in MGa.find("sum((($x - $c) / $sg) ** 2 for $x, $c, $sg in zip($crds, $cen, $sig))"):
+        if all(isinstance(bb[k][1], ast.Name) for k in ("crds", "cen", "sig")):
+            role["center_subpix"] = bb["cen"][1].id
+            role["sigma_px"] = bb["sig"][1].id
+            for _, b2 in MGa.find("$crds = np.indices($shp, ...)", {"crds": bb["crds"]}):
+                if isinstance(b2["shp"][1], ast.Name):
+                    role["shape_px"] = b2["shp"][1].id
+
     def on_stmt(interp, fn, st, env):
         if fn is f:
-            for k in ("center_subpix", "shape_px", "sigma_px", "shape_subpix"):
-                if k in env:
-                    seen[k] = env[k]
+            for k, nm in role.items():
+                if nm in env:
+                    seen[k] = env[nm]
 
     it.on_stmt.append(on_stmt)
 
@@ -306,7 +320,7 @@ def gaussian_clause(model, rep, funcs):
     ok2 = None
     det2 = ""
     if exps:
-        e = exps[0].args[0]
+        e = MGa.expr(exps[0].args[0], keep=tuple(role.values()))
         sums = [s for s in ast.walk(e) if isinstance(s, ast.Call) and dotted(s.func) == "sum"]
         if sums:
             s = sums[0]
@@ -333,24 +347,28 @@ def mask_clause(model, rep, funcs):
         if f is None:
             continue
         rep.instance("SLOT.mask", f.loc())
-        ifs = [n for n in walk_no_nested(f.node) if isinstance(n, ast.If) and norm_src(n.test) == "radius < 0"]
-        ok = len(ifs) == 1 and neg in norm_src(ifs[0].body[0]) and len(ifs[0].orelse) == 1 and pos in norm_src(ifs[0].orelse[0]) and \
-            "structure=structure" in norm_src(ifs[0])
-        r0 = "if r == 0:\n        return img" in norm_src(f.node)
+        MM = Matcher(f)
+        bm: dict = {}
+        ok = MM.all_of(["$r = _get_radius_px(radius, scale)", "$st = _get_structure($r)",
+                        f"if radius < 0:\n    $out = ndi.{neg}(img, structure=$st, ...)\nelif radius > 0:\n    $out = ndi.{pos}(img, structure=$st, ...)",
+                        "return $out"], bm)[0] or \
+            MM.all_of(["$r = _get_radius_px(radius, scale)", "$st = _get_structure($r)",
+                       f"if radius < 0:\n    $out = ndi.{neg}(img, structure=$st, ...)\nelse:\n    $out = ndi.{pos}(img, structure=$st, ...)", "return $out"], bm)[0]
+        r0 = bool(ok) and MM.has("if $r == 0:\n    return img", bm)
         rep.ob("SLOT", f.anchor, f"{name}: {neg} exactly for radius < 0, {pos} for radius > 0, identity when the radius is below one pixel", ok and r0, "",
                node=f.node, fn=f, clause="6 masks", stmt=f"def {name}")
     f = funcs.get("acryo/pipe/_masking.py::gaussian_smooth")
     if f is not None:
         s = norm_src(f.node)
         rep.instance("SLOT.mask", f.loc())
-        ok = "ndi.distance_transform_edt(img)" in s and "img = ~img" in s and "np.exp(-dist ** 2 / 2 / (sigma / scale) ** 2" in s
+        ok = Matcher(f).all_of(["img = ~img", "$d = ndi.distance_transform_edt(img)", "np.exp(-$d ** 2 / 2 / (sigma / scale) ** 2, ...)"])[0]
         rep.ob("SLOT", f.anchor, "gaussian_smooth = exp(-d^2 / (2 (sigma/scale)^2)) of the distance to the mask (values in (0, 1], 1 on the mask)", ok, "", node=f.node,
                fn=f, clause="6 masks", stmt="def gaussian_smooth")
     f = funcs.get("acryo/pipe/_masking.py::_get_structure")
     if f is not None:
         s = norm_src(f.node)
         rep.instance("SLOT.mask", f.loc())
-        ok = "size = 2 * r + 1" in s and "(xx - r) ** 2 + (yy - r) ** 2 + (zz - r) ** 2 <= r ** 2" in s
+        ok = Matcher(f).all_of(["$size = 2 * r + 1", "$zz, $yy, $xx = np.indices(($size,) * 3)", "return ($xx - r) ** 2 + ($yy - r) ** 2 + ($zz - r) ** 2 <= r ** 2"])[0]
         rep.ob("SLOT", f.anchor, "structuring element is the centred ball of radius r in a (2r+1)^3 box", ok, "", node=f.node, fn=f, clause="6 masks",
                stmt="def _get_structure")
     f = funcs.get("acryo/pipe/_masking.py::soft_otsu")
